@@ -227,8 +227,15 @@ def bucket_of(sub, v):
     return f"{sub}|{v.kind}"
 
 
+_BREADCRUMB = os.environ.get("VERIF_BREADCRUMB")
+
+
 def run_case(sub, case, ctx):
     """Run one case; returns None if fine, else the Violation (never raises Violation)."""
+    if _BREADCRUMB:
+        # so that the parent can attribute a hard crash (SIGSEGV in JIT code) to the case that caused it
+        with open(_BREADCRUMB, "w") as fh:
+            fh.write(json.dumps({"sub": sub.name, "case": json.loads(canon(case))}))
     try:
         sub.check(case, ctx)
         return None
